@@ -355,14 +355,28 @@ fn gen_op(rng: &mut Rng, cfg: &GenCfg, t: &Tree, focus: &[String]) -> Op {
     }
 }
 
+/// Turn some file syncs into `open(read-only); sync; close` (std / tokio
+/// handle or an io_uring fsync on the read-only descriptor): the descriptor
+/// that asks for durability need not be the one that wrote.
+fn maybe_ro_sync(rng: &mut Rng, op: &mut Op) {
+    let (p, fe, step) = match op {
+        Op::SyncAll { p, fe } => (p.clone(), *fe, Step::SyncAll),
+        Op::SyncData { p, fe } => (p.clone(), *fe, Step::SyncData),
+        _ => return,
+    };
+    if rng.chance(0.3) {
+        *op = Op::Handle {
+            p,
+            fl: Flags::parse("r"),
+            steps: vec![step],
+            fe,
+        };
+    }
+}
+
 fn fix_fe(op: &mut Op) {
     // io_uring only carries read / write / fsync
-    if op.fe() == Some(Fe::Uring)
-        && !matches!(
-            op,
-            Op::WriteAt { .. } | Op::ReadAt { .. } | Op::SyncAll { .. } | Op::SyncData { .. }
-        )
-    {
+    if op.fe() == Some(Fe::Uring) && !op.uring_capable() {
         op.set_fe(Fe::Std);
     }
 }
@@ -387,6 +401,7 @@ fn gen_sync(rng: &mut Rng, cfg: &GenCfg, t: &Tree) -> Option<Op> {
             fe,
         },
     };
+    maybe_ro_sync(rng, &mut op);
     fix_fe(&mut op);
     Some(op)
 }
@@ -420,6 +435,7 @@ pub fn gen_history(rng: &mut Rng, cfg: &GenCfg) -> (Vec<Op>, Rejected) {
     while out.len() < cfg.len && guard < cfg.len * 40 {
         guard += 1;
         let mut op = gen_op(rng, cfg, &dm.v, &focus);
+        maybe_ro_sync(rng, &mut op);
         fix_fe(&mut op);
         if cfg.avoid_zones {
             if let Some(z) = zt.check(&dm.v, &op) {
